@@ -53,6 +53,24 @@ def maporder_across_processes(c):
 
 
 CONFIG = {
+    "C20": {
+        "profiles": BOTH,
+        "rule": "one evaluation = one CEL source translated (and its SQL re-parsed); distinct non-trivial = distinct sources with an operator or call, or containing a string literal",
+        "floors": {"quick": {"_evaluations": 150000, "translations": 100000, "string_literal_cases": 30000, "unsupported_cases": 5},
+                   "thorough": {"_evaluations": 1500000}},
+        "assumptions": ASSUME_COMMON + [
+            "the dialect's own operator spellings (!, in, %, (x)->'f'(args) for a method call) are taken as given (pinned by the to_sql tests); only structure and lexical safety are judged",
+            "the SQL is read with PostgreSQL's lexical rules ('' is the only string escape, -- and /* */ comments) and operator precedence (:: tightest, then [], unary, * / %, + -, "
+            "JSON arrows, comparisons, AND, OR)",
+            "T(x) with one argument is a cast; T() is read as T(null); float and double are the same cast"],
+        "technique": "runtime monitoring with an independent SQL tokenizer + precedence parser as oracle: the emitted SQL is parsed back and its tree compared with the generator's source tree; "
+                     "string literals over an injection alphabet; unsupported constructs must give the Unsupported error",
+        "level_text": "String literals over an alphabet of quotes, backslashes, dashes, semicolons, comment openers/closers, newlines and NUL (incl. the classic payloads) as operands, call and "
+                      "cast arguments, list elements, map keys/values, index expressions and ternary arms; generated expressions over all operators, ?:, calls alone / in chains / nested with 0..4 "
+                      "arguments, member and index paths, lists, maps, casts and unary runs. The SQL must lex without comments or unterminated strings, parse as one expression and equal the source "
+                      "tree (operators, operand order, grouping, argument order, paths, casts, literal contents). Exploration only.",
+        "level_note": "trusts the 250-line SQL reader in the harness and the renderer",
+    },
     "C19": {
         "profiles": BOTH,
         "rule": "one evaluation = one compile, or one execution of an original / revived program; distinct non-trivial = distinct sources whose bytecode has more than one "
